@@ -32,7 +32,9 @@ def run(rep, tier, seed, replay=None):
         'engine skeleton Model/Engine.v is hand-written (tied by the dirty-flag correspondence and trace validation)',
         'interface hypotheses WF, H1 on the real algorithms: validated on every traced pass, not proved',
         'exact-key memo = cfg(taffy_verif) hook; the real lossy key is a known finding',
-        'theorems cover the root LayoutOutput and cache validity, not the per-node stored layouts (see C01_layouts_refuted_...)'])
+        'theorems cover the root LayoutOutput and cache validity for every algorithm; the per-node stored layouts only for algorithms '
+        'satisfying NS/HQ/H3 (C01_layouts_equal_fresh_for_nonscribbling_algorithms; H3/HQ are read off the three hidden-child loops, not '
+        'trace-validated; NS is violated by the block algorithm: known finding computesize-scribble, see C01_layouts_refuted_...)'])
     rc, out, binp, dt = build_harness('release')
     if rc != 0:
         rep.add_broken('build', 'harness', out[-1500:])
@@ -85,4 +87,7 @@ def run(rep, tier, seed, replay=None):
                        'dirty() of every live node after every call compared; distinct = distinct encoded histories with at least one mutation. '
                        'search: each history also run on the implementation in real and exact-key mode, every compute_layout compared bit-for-bit '
                        '(rounded and unrounded) with a freshly built tree; mismatches classified by the event trace')
+    rep.cov['samples'].append({'theorem': 'C01_layouts_equal_fresh_for_nonscribbling_algorithms: exact key, WF, H1, H3, NS, HQ -> Inv t0 -> Coh t0 -> '
+                               'run_ok_l t0 ops -> mode i = PerformLayout -> memo f (run_ops t0 ops) i = Some (o,t1) -> '
+                               'memo f\' (fresh (skel (run_ops t0 ops))) i = Some (o\',t2) -> o = o\' /\\ lkids (lays t1) = lkids (lays t2)'})
     rep.cov['samples'].append({'theorem': 'C01_root_output_equals_fresh: Inv t0 -> run_ok t0 ops -> memo f (run_ops t0 ops) i = Some (o,_) -> memo f\' (fresh (skel (run_ops t0 ops))) i = Some (o\',_) -> o = o\''})
